@@ -205,6 +205,35 @@ def tmpl_severity(rng, nodes, lits):
     return [parent] + props
 
 
+def tmpl_nested_severity(rng, nodes, lits):
+    """a parent of waivable severity whose sh:node / sh:not / sh:and member has another severity and mostly fails:
+    the nested results sit under sh:detail (or nowhere) and must not reach the verdict"""
+    u = _uid(rng)
+    iri_nodes = [n for n in nodes if isinstance(n, URIRef)]
+    parent = new_shape(EX["NS%s" % u], None)
+    parent["sev"] = rng.choice([SH.Warning, SH.Info, SH.Info, None])
+    parent["targets"]["nodes"] = rng.sample(iri_nodes, min(2, len(iri_nodes)))
+    inner = new_shape(BNode("ns%s" % u) if rng.random() < 0.6 else EX["NSI%s" % u], None)
+    inner["sev"] = rng.choice([None, SH.Violation, SH.Warning, EX.CustomSeverity, SH.Info])
+    inner["comps"].append(rng.choice([("in", []), ("class", [EX.NoSuchClass]), ("hasvalue", [EX.absent])]))
+    out = [parent, inner]
+    if rng.random() < 0.4:
+        deeper = new_shape(BNode("nsd%s" % u), None)
+        deeper["sev"] = rng.choice([None, SH.Warning, SH.Info])
+        deeper["comps"].append(("in", []))
+        inner["comps"].append(("node", [deeper["id"]]))
+        out.append(deeper)
+    kind = rng.choice(["node", "node", "node", "and", "or"])
+    parent["comps"].append((kind, [inner["id"]] if kind == "node" else [[inner["id"]]]))
+    if rng.random() < 0.3:
+        ps = new_shape(BNode("nsp%s" % u), ("pred", rng.choice(PREDS)))
+        ps["sev"] = rng.choice([SH.Info, SH.Warning])
+        ps["comps"].append(("mincount", 4))
+        parent["comps"].append(("property", [ps["id"]]))
+        out.append(ps)
+    return out
+
+
 def tmpl_custom(rng, nodes, lits):
     """a shape with a (mostly failing) SPARQL-based constraint component and/or sh:sparql constraint next to
     core constraints and sibling property shapes of other severities"""
@@ -245,6 +274,8 @@ def add_templates(rng, shapes, nodes, lits, p=0.5):
         shapes.extend(tmpl_qualified(rng, nodes, lits))
     if rng.random() < p:
         shapes.extend(tmpl_severity(rng, nodes, lits))
+    if rng.random() < p:
+        shapes.extend(tmpl_nested_severity(rng, nodes, lits))
     return shapes
 
 
